@@ -374,6 +374,30 @@ CLAIMS["C19"] = dict(
          "are not exercised (not installed).",
     design="3/C19")
 
+CLAIMS["C17"] = dict(
+    technique="Hypothesis generation of inputs, parameters and seed pairs "
+              "with validity predicates on the output (many correct "
+              "outputs exist); generator-established termination "
+              "preconditions + a deterministic draw-count watchdog",
+    text="Model generators (ErdosRenyi, BarabasiAlbert(+igraph), "
+         "Configuration, WattsStrogatz, GrowWeights), randomly_rewire, "
+         "geographical rewiring I-III on five kinds of distance matrices, "
+         "RandomlyRewireCrossLinks, RandomlySetCrossLinks(_sparse) and "
+         "set_random_links_by_distance are run with 1..3 harness-drawn "
+         "seed pairs per input: simple-graph output, documented exact link "
+         "counts, degree sequences (and cross degrees, internal "
+         "adjacencies) preserved, sorted link lengths within iterations*eps "
+         "globally (I) and per node (II, III), degree pairs of links "
+         "preserved (III), requested cross-link counts exact, untouched "
+         "parts and caller arrays unchanged, object state (n_links, "
+         "density, embedded graph) consistent, 0 iterations = identity.",
+    note="Trusted: the predicates in props/c17.py. Every randomness source "
+         "(numpy.random and random, used by igraph) is seeded from the "
+         "case; an eligible swap is established by the generator, and a "
+         "proposal-count budget (25x the expected number) turns a "
+         "non-terminating kernel into a violation instead of a hang.",
+    design="3/C17")
+
 NOT_CLAIMED = {}
 
 
